@@ -290,8 +290,8 @@ def run(facts, res):
         if b is None:
             continue
         for fl in iters.find_flows(facts):
-            if fl.body is not b or fl.consumer != "next" or not fl.listing:
-                continue
+            if fl.body is not b or fl.consumer not in ("next", "for_each", "try_for_each") or not fl.listing:
+                continue        # a `for` loop or a pipeline ending in for_each over the listing
             n6b += 1
             from ..conds import unaccepted
 
